@@ -32,6 +32,17 @@ TARGETS = {
     "detector/src/padwing/map.rs": (["C01", "C08", "C09", "C10"], [(100, 130), (180, 200), (380, 392), (560, 640)]),
     "physics/src/lib.rs": (["C09", "C10", "C11", "C18"], [(116, 140), (240, 380)]),
     "physics/src/drift.rs": (["C09", "C18"], [(20, 72)]),
+    "detector/src/alpha16.rs#rest": (["C01", "C02", "C08"], [(40, 679), (900, 1300)]),
+    "detector/src/padwing.rs#rest": (["C01", "C03", "C04", "C05", "C08"], [(40, 559), (681, 1319), (1601, 2040)]),
+    "detector/src/trigger.rs#rest": (["C01", "C06"], [(90, 461), (613, 900)]),
+    "detector/src/chronobox.rs#rest": (["C01", "C07", "C08", "C20"], [(200, 340)]),
+    "physics/src/matching.rs": (["C08", "C09", "C10"], [(1, 130)]),
+    "physics/src/calibration/pads/gain.rs": (["C08", "C10"], [(1, 80)]),
+    "physics/src/calibration/pads/baseline.rs": (["C08", "C10"], [(1, 80)]),
+    "physics/src/calibration/pads/delay.rs": (["C08", "C10"], [(1, 60)]),
+    "physics/src/calibration/wires/gain.rs": (["C08", "C10"], [(1, 80)]),
+    "physics/src/calibration/wires/baseline.rs": (["C08", "C10"], [(1, 80)]),
+    "physics/src/calibration/wires/delay.rs": (["C08", "C10"], [(1, 60)]),
     "physics/src/reconstruction.rs": (["C14", "C16"], [(140, 260)]),
     "physics/src/reconstruction/track_finding.rs": (["C11", "C14", "C15"], [(20, 210)]),
     "physics/src/reconstruction/track_fitting.rs": (["C14", "C16"], [(20, 200)]),
@@ -120,8 +131,9 @@ def make_patches(outdir, only=None, limit=None, seed=1):
     allm = []
     structural = "--structural" in sys.argv
     for f, (checks, regions) in TARGETS.items():
-        if only and only not in f:
+        if only and not any(o in f for o in only.split(",")):
             continue
+        f = f.split("#")[0]
         src = open(os.path.join("/repo", f)).read().split("\n")
         in_test = False
         for (lo, hi) in regions:
